@@ -54,13 +54,18 @@ def canonical(suite, entry, sk, msg):
 
 _pairing_calls = [0]
 _wrapped = [False]
+_monitor_missing = [False]
 
 
 def _wrap_pairing():
     if _wrapped[0]:
         return
     import py_ecc.bls.ciphersuites as cs
-    real = cs.pairing
+    real = getattr(cs, "pairing", None)
+    if real is None:            # the suite no longer goes through this name: fall back to the model's view
+        _wrapped[0] = True
+        _monitor_missing[0] = True
+        return
 
     def counting(*a, **k):
         _pairing_calls[0] += 1
@@ -118,7 +123,7 @@ def o_verify(ctx, case):
     ctx.label(f"arm:{arm}")
     ctx.label(f"verdict:{want}")
     ctx.label("entry:PopVerify" if entry == "PopVerify" else f"entry:Verify:{suite}")
-    if reached and not want:
+    if not want and (reached or (_monitor_missing[0] and B.valid_signature(cand))):
         ctx.label("reached_pairing:False-verdict")
     nt_ = False
     if not want:
@@ -259,7 +264,7 @@ def tasks(tier):
     selfcheck()
     q = tier == "quick"
     ns = 16
-    out = [Task(f"verify-{s}", "t_verify", shard=s, nshards=ns, n=45 if q else 1200) for s in range(ns)]
+    out = [Task(f"verify-{s}", "t_verify", shard=s, nshards=ns, n=36 if q else 1200) for s in range(ns)]
     if not q:
         for i, suite in enumerate(sc.SUITES):
             for lo in range(0, 768, 96):
